@@ -92,6 +92,9 @@ CAPSET = (1, 2, 3, 4, 5, 6, 7, 8, 9, 10, 12, 15, 16, 17, 24, 31, 32, 33, 48, 63,
           255, 256, 257)
 
 
+N_CAPWRAP = [0]
+
+
 def capwrap_cases(fresh):
     """deterministic: every capacity of CAPSET x fill levels (every level up to capacity 10; corner levels
     0,1,2,3,cap/2,cap-2,cap-1,cap up to 65; 0,1,cap/2,cap-1,cap above) held while 2 cap + 3 items pass through, so
@@ -157,6 +160,7 @@ def gen_cases(rng, tier):
 
     # 0. every capacity of CAPSET, every (corner) fill level / first index, indices wrapping at least twice
     items += capwrap_cases(fresh)
+    N_CAPWRAP[0] = len(items)
 
     # 1. exhaustive one/two-step from every raw state (valid and just-invalid) of capacities 0..CAP
     CAP = 6 if tier == "quick" else 8
@@ -324,7 +328,7 @@ def main(rep, tier, seed):
             "case": {k: small[k] for k in ("kind", "store", "start", "len", "first", "data", "ops") if k in small},
             "harness_line": small["line"], "implementation_observations": out, "model_observations": model[-3000:],
             "original_case_index": idx, "replay": f"./check.py C06 --replay <this file>"})
-    dist = {"ops_histogram": hist, "exhaustive_small_state_cases": n_exh, "capwrap_capacities": list(CAPSET), "random_histories": len(items) - n_exh - len(corpus),
+    dist = {"ops_histogram": hist, "exhaustive_small_state_cases": n_exh - N_CAPWRAP[0], "capwrap_cases": N_CAPWRAP[0], "capwrap_capacities": list(CAPSET), "random_histories": len(items) - n_exh - len(corpus),
             "corpus_cases": len(corpus), "panic_observations": panics, "profiles": ["dev (model compared)", "release (diffed against dev)", "relchk (diffed against dev)"], "profile_differences": len(pdiffs)}
     samples = [items[i]["line"] for i in (0, n_exh // 2, len(items) - 1)]
     return finish(rep, info, len(items), nontriv, dist, samples, bad)
